@@ -87,3 +87,35 @@ package crunchrun
 //@   calls io.Copy#1: set copied = true
 //@   calls File.Close#4: set clerr = $r
 //@   ensures result1 == nil ==> copied && cerr == nil && clerr == nil && result0 == cn
+
+// Copy: the walk starts at the container's output directory with the symlink
+// budget and with mounts below included; a walk error, a filesystem error, a
+// directory that cannot be created (other than "exists"), a flush error or a
+// file copy error aborts with an error and no manifest; every scheduled
+// directory is created and every scheduled file is copied (none is skipped);
+// the manifest returned is the one marshalled from that filesystem.
+//@ iface CollectionFileSystem.Mkdir
+//@   modifies nothing
+//@ iface CollectionFileSystem.Flush
+//@   modifies nothing
+//@ iface CollectionFileSystem.MarshalManifest
+//@   modifies nothing
+//@ func copier.Copy property C17 safety -bounds
+//@   ghost werr error = nil
+//@   ghost mk int = 0
+//@   ghost cp0 int = 0
+//@   ghost mkerr error = nil
+//@   ghost cerr error = nil
+//@   calls copier.walkMount#1: requires $0 == "" && $1 == cp.ctrOutputDir && $2 == limitFollowSymlinks && $3 == true
+//@   calls copier.walkMount#1: set werr = $r
+//@   calls Collection.FileSystem#1: requires werr == nil
+//@   calls CollectionFileSystem.Mkdir#1: requires $0 == d
+//@   calls CollectionFileSystem.Mkdir#1: set mk = mk + 1
+//@   calls CollectionFileSystem.Mkdir#1: set mkerr = $r
+//@   calls copier.copyFile#1: requires $1 == f
+//@   calls copier.copyFile#1: set cp0 = cp0 + 1
+//@   calls copier.copyFile#1: set cerr = $r1
+//@   loop 1: invariant mk == $i && (mkerr == nil || mkerr == os.ErrExist) && werr == nil
+//@   loop 2: invariant cp0 == $i && cerr == nil && werr == nil
+//@   ensures result1 == nil ==> werr == nil && cerr == nil
+//@   ensures werr != nil ==> result1 != nil && result0 == ""
